@@ -105,19 +105,77 @@ func groupsString(re *regexp.Regexp, s string) string {
 	return strings.Join(g, ",")
 }
 
-func mapperCase(c string) (res string) {
-	ops := strings.Split(c, " | ")
-	var results, oracle []string
-	defer func() {
-		if r := recover(); r != nil {
-			results = append(results, fmt.Sprintf("PANIC"))
-			res = strings.Join(results, " | ") + "\t" + strings.Join(oracle, " ")
+type cre struct {
+	src string
+	re  *regexp.Regexp
+}
+
+// mctx keeps what the oracles need across the ops of one case
+type mctx struct {
+	m       *mapper.MetricMapper
+	regexes []cre
+	seenM   map[string]bool
+}
+
+// loadOp executes "L <yamlhex> <regexes> <runes> <ast...>" and returns the result and oracle tokens
+func (c *mctx) loadOp(f []string, oi int) (string, []string) {
+	var oracle []string
+	yaml := unhex(f[1])
+	var pending []cre
+	if f[2] != "-" {
+		for _, h := range strings.Split(f[2], ",") {
+			src := unhex(h)
+			re, err := regexp.Compile(src)
+			ok := "1"
+			if err != nil {
+				ok = "0"
+			}
+			oracle = append(oracle, "C:"+h+":"+ok)
+			pending = append(pending, cre{src, re})
 		}
-	}()
-	hdr := strings.Fields(ops[0])
-	size, _ := strconv.Atoi(hdr[1])
+	}
+	if f[3] != "-" {
+		for _, cp := range strings.Split(f[3], ",") {
+			n, _ := strconv.Atoi(cp)
+			w := "0"
+			if unicode.IsLetter(rune(n)) || unicode.IsDigit(rune(n)) {
+				w = "1"
+			}
+			oracle = append(oracle, "W:"+cp+":"+w)
+		}
+	}
+	err := c.m.InitFromYAMLString(yaml)
+	if err == nil {
+		c.regexes = pending
+		c.seenM = map[string]bool{}
+		bt := "0"
+		if c.m.FSM != nil && c.m.FSM.BacktrackingNeeded {
+			bt = "1"
+		}
+		oracle = append(oracle, fmt.Sprintf("B:%d:%s", oi, bt))
+	}
+	return "L " + errClass(err), oracle
+}
+
+// matchOracle records what every current regex answers for a metric name
+func (c *mctx) matchOracle(name string) []string {
+	var oracle []string
+	for _, r := range c.regexes {
+		if r.re == nil {
+			continue
+		}
+		key := r.src + "\x00" + name
+		if !c.seenM[key] {
+			c.seenM[key] = true
+			oracle = append(oracle, "M:"+hx(r.src)+":"+hx(name)+":"+groupsString(r.re, name))
+		}
+	}
+	return oracle
+}
+
+func newMapper(cache string, size int) *mapper.MetricMapper {
 	m := &mapper.MetricMapper{Logger: promslog.NewNopLogger()}
-	switch hdr[0] {
+	switch cache {
 	case "lru":
 		c, _ := lru.NewMetricMapperLRUCache(nil, size)
 		m.UseCache(c)
@@ -125,67 +183,36 @@ func mapperCase(c string) (res string) {
 		c, _ := randomreplacement.NewMetricMapperRRCache(nil, size)
 		m.UseCache(c)
 	}
-	type cre struct {
-		src string
-		re  *regexp.Regexp
-	}
-	var regexes []cre
-	seenM := map[string]bool{}
+	return m
+}
+
+func mapperCase(c string) (res string) {
+	ops := strings.Split(c, " | ")
+	var results, oracle []string
+	defer func() {
+		if r := recover(); r != nil {
+			results = append(results, "PANIC")
+			res = strings.Join(results, " | ") + "\t" + strings.Join(oracle, " ")
+		}
+	}()
+	hdr := strings.Fields(ops[0])
+	size, _ := strconv.Atoi(hdr[1])
+	ctx := &mctx{m: newMapper(hdr[0], size), seenM: map[string]bool{}}
+	m := ctx.m
 	for oi, op := range ops[1:] {
 		f := strings.Fields(op)
 		switch f[0] {
 		case "L":
-			yaml := unhex(f[1])
-			var pending []cre
-			if f[2] != "-" {
-				for _, h := range strings.Split(f[2], ",") {
-					src := unhex(h)
-					re, err := regexp.Compile(src)
-					ok := "1"
-					if err != nil {
-						ok = "0"
-					}
-					oracle = append(oracle, "C:"+h+":"+ok)
-					pending = append(pending, cre{src, re})
-				}
-			}
-			if f[3] != "-" {
-				for _, cp := range strings.Split(f[3], ",") {
-					n, _ := strconv.Atoi(cp)
-					w := "0"
-					if unicode.IsLetter(rune(n)) || unicode.IsDigit(rune(n)) {
-						w = "1"
-					}
-					oracle = append(oracle, "W:"+cp+":"+w)
-				}
-			}
-			err := m.InitFromYAMLString(yaml)
-			results = append(results, "L "+errClass(err))
-			if err == nil {
-				regexes = pending
-				seenM = map[string]bool{}
-				bt := "0"
-				if m.FSM != nil && m.FSM.BacktrackingNeeded {
-					bt = "1"
-				}
-				oracle = append(oracle, fmt.Sprintf("B:%d:%s", oi, bt))
-			}
+			r, o := ctx.loadOp(f, oi)
+			results = append(results, r)
+			oracle = append(oracle, o...)
 		case "D":
 			// digest of the answers for every name x metric type
 			h := fnv.New64a()
 			for _, nh := range strings.Split(f[1], ",") {
 				name := unhex(nh)
+				oracle = append(oracle, ctx.matchOracle(name)...)
 				for _, ty := range []string{"counter", "gauge", "observer"} {
-					for _, r := range regexes {
-						if r.re == nil {
-							continue
-						}
-						key := r.src + "\x00" + name
-						if !seenM[key] {
-							seenM[key] = true
-							oracle = append(oracle, "M:"+hx(r.src)+":"+hx(name)+":"+groupsString(r.re, name))
-						}
-					}
 					mp, labels, present := m.GetMapping(name, mapper.MetricType(ty))
 					if !present {
 						h.Write([]byte("Q -;"))
@@ -197,16 +224,7 @@ func mapperCase(c string) (res string) {
 			results = append(results, fmt.Sprintf("D %016x", h.Sum64()))
 		case "Q":
 			name := unhex(f[2])
-			for _, r := range regexes {
-				if r.re == nil {
-					continue
-				}
-				key := r.src + "\x00" + name
-				if !seenM[key] {
-					seenM[key] = true
-					oracle = append(oracle, "M:"+hx(r.src)+":"+hx(name)+":"+groupsString(r.re, name))
-				}
-			}
+			oracle = append(oracle, ctx.matchOracle(name)...)
 			mp, labels, present := m.GetMapping(name, mapper.MetricType(f[1]))
 			if !present {
 				results = append(results, "Q -")
